@@ -155,6 +155,22 @@ func (e *Engine) callFunction(st *State, fr *Frame, res ssa.Value, callee *ssa.F
 				fr.env[res] = Val{Forall([]*Term{bv}, Implies(Le(IntC(1), bv), body))}
 			}
 			return false
+		case (name == "pow2" || name == "bigval") && strings.HasSuffix(e.W.Fset.Position(callee.Pos()).Filename, "zz_verif_gen.go"):
+			var r *Term
+			if name == "pow2" {
+				k := st.norm(args[0][0])
+				if c, ok := k.ConstInt(); ok && c >= 0 && c <= 4096 {
+					r = pow2(c)
+				} else {
+					r = App("pow2", SInt, k)
+				}
+			} else {
+				r = bigGet(st, args[0][0])
+			}
+			if res != nil {
+				fr.env[res] = Val{r}
+			}
+			return false
 		case (name == "forall" || name == "exists") && strings.HasSuffix(e.W.Fset.Position(callee.Pos()).Filename, "zz_verif_gen.go"):
 			r := e.quantifier(st, fr, name, args)
 			if res != nil {
@@ -162,6 +178,10 @@ func (e *Engine) callFunction(st *State, fr *Frame, res ssa.Value, callee *ssa.F
 			}
 			return false
 		}
+	}
+	if callee.Pkg != nil && e.isUninterp(callee) {
+		e.bind(fr, res, e.ufResults(st, "spec$"+shortFn(callee), callee.Signature, args[:len(callee.Params)]))
+		return false
 	}
 	if r, ok := e.model(st, fr, callee, args, at); ok {
 		if st.dead {
@@ -639,3 +659,12 @@ func (e *Engine) quantifier(st *State, fr *Frame, kind string, args []Val) *Term
 }
 
 var trace = os.Getenv("GOVC_TRACE") != ""
+
+func (e *Engine) isUninterp(fn *ssa.Function) bool {
+	for _, pc := range e.W.Contracts {
+		if pc.Uninterp[fn.Name()] && e.W.Pkgs[pc.Rel] == fn.Pkg {
+			return true
+		}
+	}
+	return false
+}
